@@ -20,7 +20,7 @@ from ..report import AnalysisError, Ob
 from ..term import Resolver, pmatch, find_all, abstract, anf_of
 
 REL = "inference/pdf/kde.py"
-FLOORS = {"float-arithmetic": 1, "region-provenance": 2, "kernel-form": 2, "region-tables": 3, "truncation-bound": 1, "units": 3, "units-result-types": 3}
+FLOORS = {"every-group-stored": 2, "float-arithmetic": 1, "region-provenance": 2, "kernel-form": 2, "region-tables": 3, "truncation-bound": 1, "units": 3, "units-result-types": 3}
 
 EXPECTED = {"__call__": "Lin(-1,0)", "cdf": "Lin(0,0)", "attr:h": "Lin(1,0)", "attr:mode": "Lin(1,1)"}
 
@@ -60,6 +60,96 @@ def units_obligations(prog, rel, cname, configs, public, expected, rule_prefix="
 
 def _tuple_match(got, want):
     return repr(got).replace("c)", ")").replace("c,", ",") == want
+
+
+EMPTY = ("_a.start == _a.stop", "_a.stop == _a.start", "_a.stop <= _a.start", "_a.start >= _a.stop", "_a.stop - _a.start == 0",
+         "_a.stop - _a.start <= 0", "_a.stop - _a.start < 1", "not _a.start < _a.stop", "not _a.stop > _a.start",
+         "not _a.start != _a.stop")
+NONEMPTY = ("_a.start != _a.stop", "_a.stop != _a.start", "_a.start < _a.stop", "_a.stop > _a.start", "_a.stop - _a.start > 0",
+            "_a.stop - _a.start >= 1", "_a.stop - _a.start != 0", "not _a.start == _a.stop", "not _a.stop == _a.start")
+
+
+def _every_group_stored(prog, ci, fn):
+    """The region loop stores one value per group of query points into a zero-filled result.  An iteration that skips its store
+    leaves the fill value, which is only right if the value the store would have written is the fill value under the skip
+    condition: with no kept sample every reduction over the kept samples is 0, and whatever else the summand adds (the cdf's
+    offset of samples dropped below the region) must still be written."""
+    loops = [l for l in fn.body if isinstance(l, ast.For)]
+    if len(loops) != 1:
+        raise AnalysisError(f"anchor vanished: region loop in GaussianKDE.{fn.name}")
+    loop = loops[0]
+    rz = Resolver(fn, prog, ci.module, ci)
+    stores = [s_ for s_ in ast.walk(loop) if isinstance(s_, (ast.Assign, ast.AugAssign))
+              and isinstance((s_.targets[0] if isinstance(s_, ast.Assign) else s_.target), ast.Subscript)]
+    if len(stores) != 1:
+        raise AnalysisError(f"anchor vanished: per-group store in GaussianKDE.{fn.name} ({len(stores)} stores)")
+    store = stores[0]
+    # skip conditions: (test, skip-when-true) on the way to the store
+    skips = []
+
+    def find(body, conds):
+        for st in body:
+            if st is store:
+                return conds, True
+            if isinstance(st, ast.If):
+                exits = lambda blk: any(isinstance(x, (ast.Continue, ast.Break)) for x in blk)
+                r = find(st.body, conds + [(st.test, False)])
+                if r[1]:
+                    return r
+                r = find(st.orelse, conds + [(st.test, True)])
+                if r[1]:
+                    return r
+                if exits(st.body):
+                    conds = conds + [(st.test, True)]
+                if exits(st.orelse):
+                    conds = conds + [(st.test, False)]
+            elif isinstance(st, (ast.For, ast.While, ast.With, ast.Try)):
+                r = find(st.body, conds)
+                if r[1]:
+                    return r
+        return conds, False
+    conds, found = find(loop.body, [])
+    if not found:
+        raise AnalysisError(f"anchor vanished: per-group store not reached in GaussianKDE.{fn.name}")
+    construct = qual(ci, fn)
+    if not conds:
+        return struct_ob("every-group-stored", construct, True, "", REL, loop.lineno, slots={"skips": 0})
+    # the slice of kept samples in the summand
+    val = rz.term(store.value, store)
+    kept = [U(n.slice.elts[-1]) for n in ast.walk(val) if isinstance(n, ast.Subscript) and U(n.value) == "self.sample"
+            and isinstance(n.slice, ast.Tuple)]
+    kept += [U(n.slice) for n in ast.walk(val) if isinstance(n, ast.Subscript) and U(n.value) == "self.sample" and not isinstance(n.slice, ast.Tuple)]
+    if not kept:
+        raise AnalysisError(f"anchor vanished: kept-sample slice in the summand of GaussianKDE.{fn.name}")
+    for test, skip_when_true in conds:
+        t = rz.term(test, rz.stmt_of(test) if hasattr(rz, "stmt_of") else None)
+        pats = EMPTY if skip_when_true else NONEMPTY
+        b = None
+        for pt in pats:
+            b = pmatch(t, pt)
+            if b is not None:
+                break
+        if b is None or b["_a"] not in kept:
+            raise AnalysisError(f"every-group-stored: the region loop of GaussianKDE.{fn.name} skips its store under `{U(test)}`, which is not "
+                                f"recognised as `no kept sample` - the skipped value cannot be decided")
+
+    class Z(ast.NodeTransformer):
+        def visit_Call(self, node):
+            if isinstance(node.func, ast.Attribute) and node.func.attr == "sum" and any(
+                    isinstance(n, ast.Subscript) and U(n.value) == "self.sample" for n in ast.walk(node.func.value)):
+                return ast.Constant(0)
+            return self.generic_visit(node)
+    resid = ast.fix_missing_locations(Z().visit(ast.parse(U(val), mode="eval").body))
+    ab, seen = abstract(resid, [("self.cdf_offsets[_r]", "OFF")])
+    try:
+        zero = anf_of(ab).eq(R.const(0))
+        shown = U(resid)
+    except Unsupported as e:
+        raise AnalysisError(f"every-group-stored: residual `{U(resid)[:120]}` outside the algebra: {e}")
+    return struct_ob("every-group-stored", construct, zero,
+                     f"groups whose region keeps no sample are skipped (`{U(conds[0][0])}`) and keep the fill value 0, but the value of "
+                     f"the summand with no kept sample is `{shown}`, which is not 0: the cumulative function drops to 0 inside every "
+                     f"gap of the sample wider than the cut-off", REL, loop.lineno, slots={"skips": len(conds), "residual": shown})
 
 
 def run(prog, tier):
@@ -278,6 +368,9 @@ def run(prog, tier):
     obs.extend(units_obligations(prog, REL, "GaussianKDE", configs, public, EXPECTED))
 
     obs.extend(dtype_hazard_obligations(prog, "float-arithmetic", ['inference/pdf/kde.py']))
+
+    for mname in ("__call__", "cdf"):
+        obs.append(_every_group_stored(prog, ci, ci.methods[mname]))
 
     obs.extend(memo_obligations(prog, "cache-key", [prog.cls("GaussianKDE")]))
 
